@@ -52,7 +52,7 @@ def run(ctx):
     l3 = pf_common.machine_l3(exe)
     ctx.cov['machine_l3_groups'] = l3
     hist = {}
-    n = 800 if ctx.quick else 20000
+    n = 600 if ctx.quick else 20000
     cases = [WITNESS]
     # start mod g swept systematically on the adaptive and static paths, g in 2..64
     for g in ([2, 3, 8, 64] if ctx.quick else range(2, 65)):
